@@ -183,8 +183,46 @@ def ord2_derived(ctx, flavours):
                     why.append('%s at %s is not under exactly one Ordering arm' % (kind, t['sp']))
                     continue
                 arms.setdefault(labs[0], {}).setdefault(kind, []).append((bi, t))
+        # iterator form: `once(root).chain(targets).collect()` (Pre) / `targets.chain(once(root)).collect()` (Post)
+        colls = {}
+        for bi, t in calls_in(b, lambda x: callee_name(x).endswith('Iterator::collect')):
+            labs = [l.split('::')[-1] for l in dispatch.arm_context(F, b, bi) if l.startswith('Ordering::')]
+            if len(labs) == 1:
+                colls.setdefault(labs[0], []).append((bi, t))
+
+        def is_root_once(x):
+            x = deep_unwrap(x)
+            return isinstance(x, tuple) and x and x[0] == 'call' and x[1] == 'std::iter::once' and deep_unwrap(x[2][0]) == ROOT
+
+        def is_targets(x):
+            cs_ = term_calls(x)
+            names_ = [c[1].split('::')[-1] for c in cs_]
+            clos_ = [z for c in cs_ for z in c[2] if isinstance(z, tuple) and z and z[0] == 'aggr' and z[1].startswith('closure:')]
+            if not term_mentions(deep_unwrap(x), lambda z: z == EDGES) or 'map' not in names_ or any(n in names_ for n in ('rev', 'skip', 'filter', 'take', 'step_by', 'chain', 'once')) or len(clos_) != 1:
+                return False
+            cb_ = F.bodies.get(clos_[0][1][len('closure:'):])
+            return cb_ is not None and deep_unwrap(F.prov(cb_).of_local(0)) == ('f', P2_, '1')
         for lab in ('Pre', 'Post'):
             a = arms.get(lab, {})
+            if not a.get('push') and not a.get('app') and len(colls.get(lab, [])) == 1:
+                cbi, ct = colls[lab][0]
+                src = pv.of_operand(ct['args'][0])
+                d = src
+                while isinstance(d, tuple) and d and d[0] == 'v':
+                    d = d[1]
+                if not (isinstance(d, tuple) and d and d[0] == 'call' and d[1].endswith('Iterator::chain') and len(d[2]) == 2):
+                    why.append('%s arm collects %s, expected root and edge targets chained' % (lab, pretty(src)))
+                    continue
+                first, second = d[2]
+                want_first_root = lab == 'Pre'
+                if want_first_root and not (is_root_once(first) and is_targets(second)):
+                    why.append('Pre arm chains %s then %s, expected the root then the edge targets' % (pretty(first), pretty(second)))
+                if not want_first_root and not (is_targets(first) and is_root_once(second)):
+                    why.append('Post arm chains %s then %s, expected the edge targets then the root' % (pretty(first), pretty(second)))
+                if deep_unwrap(pv.of_local(0)) != deep_unwrap(('call', ct['callee'] if False else callee_name(ct), tuple(pv.of_operand(x) for x in ct['args']), cbi)) and \
+                        not term_mentions(deep_unwrap(pv.of_local(0)), lambda z: isinstance(z, tuple) and z and z[0] == 'call' and len(z) > 3 and z[3] == cbi):
+                    why.append('%s arm: the collected list is not what is returned' % lab)
+                continue
             if len(a.get('push', [])) != 1 or len(a.get('app', [])) != 1:
                 why.append('%s arm: %d root pushes, %d appends' % (lab, len(a.get('push', [])), len(a.get('app', []))))
                 continue
@@ -234,20 +272,37 @@ def pfs_search(ctx, flavours):
             else:
                 why.append('no closure')
         else:
-            why.append('result is %s' % pretty(rt))
+            # explicit forms: `let p = self.search_path()?; Some(p.last_node()..)`, match / if let
+            alts_ = list(rt[1]) if isinstance(rt, tuple) and rt and rt[0] == 'join' else [rt]
+            kinds = []
+            for a_ in alts_:
+                a0 = a_
+                while isinstance(a0, tuple) and a0 and a0[0] == 'v':
+                    a0 = a0[1]
+                if isinstance(a0, tuple) and a0 and a0[0] == 'aggr' and a0[1].endswith('Option::None'):
+                    kinds.append('none')
+                elif isinstance(a0, tuple) and a0 and a0[0] == 'call' and a0[1].endswith('from_residual'):
+                    kinds.append('none')
+                elif isinstance(a0, tuple) and a0 and a0[0] == 'aggr' and a0[1].endswith('Option::Some') and a0[2]:
+                    x_ = deep_unwrap(a0[2][0])
+                    if isinstance(x_, tuple) and x_ and x_[0] == 'call' and x_[1].endswith('::Path::last_node') and isinstance(x_[2][0], tuple) and x_[2][0] and x_[2][0][0] == 'call' and \
+                            x_[2][0][1].endswith('::Pfs::search_path') and deep_unwrap(x_[2][0][2][0]) == P1_:
+                        kinds.append('last')
+                    else:
+                        kinds.append('other:' + pretty(x_))
+                else:
+                    kinds.append('other:' + pretty(a0))
+            if not ('last' in kinds and all(k_ in ('last', 'none') for k_ in kinds)):
+                why.append('result is %s' % pretty(rt))
         # Path::last_node = edges.last().map(|e| &e.1)
         lb = F.find(fl, 'node::algo::path::Path::last_node')
         if lb is None:
             why.append('Path::last_node missing')
         else:
-            lt = F.prov(lb).of_local(0)
-            cs = term_calls(lt)
-            if not any(c[1].endswith(']::last') for c in cs):
-                why.append('last_node does not read last() of the edge list')
-            clos = [z for c in cs for z in c[2] if isinstance(z, tuple) and z and z[0] == 'aggr' and z[1].startswith('closure:')]
-            if len(clos) == 1:
-                cb = F.bodies.get(clos[0][1][len('closure:'):])
-                if deep_unwrap(F.prov(cb).of_local(0)) != ('f', P2_, '1'):
-                    why.append('last_node projects %s' % pretty(F.prov(cb).of_local(0)))
+            from .rules_bt import _canon_elem
+            got = _canon_elem(F, F.prov(lb).of_local(0), fl + '::node::algo::path::')
+            want = ('field', 'last', '1')
+            if not (want in got and got <= {want, 'none'}):
+                why.append('last_node is not the target of the last edge: %s' % sorted(map(str, got)))
         out.append(Obl('PFS-SEARCH', b['q'], b['span'], 'search = target node of search_path', not why, '; '.join(why) if why else 'ok'))
     return out
